@@ -61,6 +61,8 @@ class Mod:
                 pkg = dotted.split('.')[:-n.level] if n.level else []
                 m = '.'.join(pkg + ([n.module] if n.module else []))
                 for a in n.names:
+                    if a.name == '*':
+                        raise Unsupported('%s: star import (any name of the module may be rebound by it)' % dotted)
                     self.binds.setdefault(a.asname or a.name, []).append(('from', m, a.name))
             elif isinstance(n, ast.Import):
                 for a in n.names:
@@ -112,8 +114,8 @@ def reads(stmts):
 
 
 class Translator:
-    def __init__(self, src, world):
-        self.src = src
+    def __init__(self, src, world, opaque=()):
+        self.src, self.opaque = src, set(opaque)  # opaque modules: a call into them is RECORDED, not translated
         self.mods = {}
         self.world = [self.mod(m) for m in world]  # the classes of these modules are the closed world of dispatch
         self.out, self.done, self.busy, self.summary, self.refused, self.recursive = [], {}, set(), {}, [], set()
@@ -368,6 +370,7 @@ class Translator:
             outs = Fn(self, mod, {}).out_params(fn, params)
             env = {p: Var('a%d' % i, owned=(i in outs)) for i, p in enumerate(params)}
             f = Fn(self, mod, env, outs=[params[i] for i in outs])
+            f.locals = set(params) | {x.id for x in ast.walk(fn) if isinstance(x, ast.Name) and isinstance(x.ctx, (ast.Store, ast.Del))}
             if cls is not None and params and self.is_tuple_record(mod, cls) and 'staticmethod' not in [getattr(d, 'id', '') for d in fn.decorator_list]:
                 self.fields(mod, cls)  # checks the shape of the class
                 f.self_tuple = (params[0], self.tag(mod, cls))
@@ -470,6 +473,10 @@ class Fn:
     def __init__(self, tr, mod, env, outs=()):
         self.tr, self.mod, self.env, self.outs = tr, mod, env, list(outs)
         self.n, self.returns, self.locked, self.self_tuple = 0, [], set(), None
+        self.locals = set()  # every name the function binds somewhere: never resolved at module level
+
+    def scope(self):
+        return set(self.env) | self.locals
 
     def fresh_var(self):
         self.n += 1
@@ -500,8 +507,8 @@ class Fn:
         call = s.value if isinstance(s, (ast.Expr, ast.Assign)) and isinstance(s.value, ast.Call) else None
         if call is None:
             return None
-        r = self.tr.static(self.mod, call.func, self.env)
-        if not r or r[0] != 'func':
+        r = self.tr.static(self.mod, call.func, self.scope())
+        if not r or r[0] != 'func' or r[1].dotted in self.tr.opaque:
             return None
         name = self.tr.function(r[1], r[2])
         if not self.tr.summary[name]['outs']:
@@ -704,12 +711,12 @@ class Fn:
             return e.id in env and env[e.id].owned
         if isinstance(e, ast.IfExp):
             return self.is_fresh(e.body, env, ret) and self.is_fresh(e.orelse, env, ret)
-        if isinstance(e, ast.Call) and isinstance(e.func, ast.Name) and e.func.id in ('sorted', 'list') and e.func.id not in env \
+        if isinstance(e, ast.Call) and isinstance(e.func, ast.Name) and e.func.id in ('sorted', 'list') and e.func.id not in self.scope() \
                 and self.tr.resolve(self.mod, e.func.id) is None:
             return True
         if isinstance(e, ast.Call):
-            r = self.tr.static(self.mod, e.func, env)
-            if r and r[0] == 'func':
+            r = self.tr.static(self.mod, e.func, self.scope())
+            if r and r[0] == 'func' and r[1].dotted not in self.tr.opaque:
                 return self.tr.summary[self.tr.function(r[1], r[2])]['fresh']
         return False
 
@@ -737,6 +744,8 @@ class Fn:
                 if cap and env[e.id].owned:
                     env[e.id].owned = False  # captured: no longer uniquely owned
                 return env[e.id].coq
+            if e.id in self.locals:
+                self.bad(e, 'local variable %s read where it may be unbound (or was moved from)' % e.id)
             return self.static_value(e, self.tr.resolve(self.mod, e.id))
         if isinstance(e, ast.BinOp):
             op = {ast.Add: 'py_add', ast.Sub: 'py_sub', ast.Mult: 'py_mul'}.get(type(e.op))
@@ -763,7 +772,7 @@ class Fn:
                 neg = isinstance(op, ast.IsNot)
                 if isinstance(r, ast.Constant) and r.value is None:
                     return '(%s %s)' % ('py_is_not_none' if neg else 'py_is_none', X(l, cap=False))
-                rs = self.tr.static(self.mod, r.value, env) if isinstance(r, ast.Attribute) else None
+                rs = self.tr.static(self.mod, r.value, self.scope()) if isinstance(r, ast.Attribute) else None
                 if rs and rs[0] == 'class' and self.tr.is_enum(rs[1], rs[2]):
                     return '(%s %s %s)' % ('py_is_not' if neg else 'py_is', X(l, cap=False), X(r))
                 self.bad(e, '`is` with something else than None or an enum member')
@@ -795,10 +804,10 @@ class Fn:
                 return '(py_item %s %d)' % (X(e.value, cap=False), e.slice.value)
             return '(py_index %s %s)' % (X(e.value, cap=False), X(e.slice))
         if isinstance(e, ast.Attribute):
-            r = self.tr.static(self.mod, e, env)
+            r = self.tr.static(self.mod, e, self.scope())
             if r:
                 return self.static_value(e, r)
-            r = self.tr.static(self.mod, e.value, env)
+            r = self.tr.static(self.mod, e.value, self.scope())
             if r and r[0] == 'class':
                 if self.tr.is_enum(r[1], r[2]):
                     return self.tr.enum_term(r[1], r[2], e.attr)
@@ -822,7 +831,7 @@ class Fn:
         if e.keywords or any(isinstance(a, ast.Starred) for a in e.args):
             self.bad(e, 'keyword / starred arguments')
         f, n = e.func, len(e.args)
-        if isinstance(f, ast.Name) and f.id in BUILTINS and f.id not in env and self.tr.resolve(self.mod, f.id) is None:
+        if isinstance(f, ast.Name) and f.id in BUILTINS and f.id not in self.scope() and self.tr.resolve(self.mod, f.id) is None:
             b = f.id
             if b in LAZY and not lazy:
                 self.bad(e, '%s(...) (an iterator) where it is not consumed at once' % b)
@@ -834,7 +843,7 @@ class Fn:
             if b in ('min', 'max') and n == 2:
                 return '(py_%s2 %s %s)' % (b, X(e.args[0]), X(e.args[1]))
             if b in ('filter', 'map') and n == 2:
-                r = self.tr.static(self.mod, e.args[0], env)
+                r = self.tr.static(self.mod, e.args[0], self.scope())
                 if not r or r[0] != 'func':
                     self.bad(e, '%s with something else than a module-level function' % b)
                 name = self.tr.function(r[1], r[2])
@@ -842,7 +851,10 @@ class Fn:
                     self.bad(e, '%s: function shape' % b)
                 return '(py_%s %s %s)' % (b, name, X(e.args[1], cap=False, lazy=True))
             self.bad(e, 'builtin %s with %d arguments' % (b, n))
-        r = self.tr.static(self.mod, f, env)
+        r = self.tr.static(self.mod, f, self.scope())
+        if r and r[0] in ('func', 'class') and r[1].dotted in self.tr.opaque:
+            # the call itself as a value: VObj "call:<module>.<name>" [arguments] (what the callee does is not translated)
+            return '(py_obj %s [%s])' % (cstr('call:%s.%s' % (r[1].short, r[2].name)), '; '.join(X(a) for a in e.args))
         if r and r[0] == 'func':
             name = self.tr.function(r[1], r[2])
             if self.tr.summary[name]['outs']:
@@ -862,7 +874,7 @@ class Fn:
         if r:
             self.bad(e, 'call of %s' % (r[0],))
         if isinstance(f, ast.Attribute):
-            rc = self.tr.static(self.mod, f.value, env)
+            rc = self.tr.static(self.mod, f.value, self.scope())
             if rc and rc[0] == 'class':
                 m = self.tr.member(rc[1], rc[2], f.attr)
                 if not m or m[0] != 'static':
@@ -885,11 +897,13 @@ class Fn:
 _LN = 'exactly_lib.impls.types.string_transformer.impl.filter.line_nums.'
 _IV = 'exactly_lib.util.interval.'
 TARGETS = {
-    'LineNums': dict(prop='C13', world=[_LN + 'range_expr', _LN + 'range_merge'], roots=[
+    'LineNums': dict(prop='C13', world=[_LN + 'range_expr', _LN + 'range_merge', _LN + 'transformers'], opaque=[_LN + 'sources'], roots=[
         (_LN + 'range_merge', q) for q in ('_is_valid_segment', '_can_be_one', '_merge_segments', '_merge_head_to',
                                            '_merge_tail_from', 'Partitioning', 'MergedRanges', 'MergedRanges.empty',
                                            'MergedRanges.everything', 'MergedRanges.is_everything', 'merge',
-                                           '_NegValuesTranslator', '_NegValuesTranslator._tr', 'translate_neg_to_non_neg')]),
+                                           '_NegValuesTranslator', '_NegValuesTranslator._tr', 'translate_neg_to_non_neg')] + [
+        (_LN + 'transformers', '_SingleRangeSourceConstructor'), (_LN + 'transformers', 'MultipleLineRangesTransformer'),
+        (_LN + 'transformers', 'MultipleLineRangesTransformer._model_for_non_negatives')]),
     'Interval': dict(prop='C13', world=[_IV + 'int_interval', _IV + 'w_inversion.interval', _IV + 'w_inversion.intervals'], roots=[
         (_IV + 'int_interval', q) for q in ('Empty', 'NonEmpty', 'unlimited', 'lower_limit', 'upper_limit', 'finite', 'point')] + [
         (_IV + 'w_inversion.intervals', q) for q in ('Empty', 'UpperLimit', 'LowerLimit', 'Finite', 'Unlimited', 'WithCustomInversion',
@@ -914,7 +928,7 @@ TARGETS = {
 
 def translate(target, src=None):
     cfg = TARGETS[target]
-    tr = Translator(src or os.path.join(common.REPO, 'src'), cfg['world'])
+    tr = Translator(src or os.path.join(common.REPO, 'src'), cfg['world'], cfg.get('opaque', ()))
     for (m, q) in cfg['roots']:
         tr.root(m, q)
     return tr
@@ -937,6 +951,23 @@ def gen_all(src=None, out_dir=None):
 
 
 gen_src_tables = gen_all
+
+
+def tie_status(prop):
+    """For a harness that wants the source tie as ADVISORY evidence (res.extra) instead of an obligation of the check:
+    regenerate, build Props/SrcTie_<prop>.v and its cone, return {'status': 'ok'|'refused'|'proof-broken', ...}."""
+    try:
+        files = gen_for(prop)
+    except Unsupported as ex:
+        return {'status': 'refused', 'detail': str(ex)}
+    name = 'SrcTie_%s' % prop
+    b = common.coq_build(targets=[f[:-2] + '.vo' for f in common.deps_of(name)])
+    if not b.ok:
+        return {'status': 'proof-broken', 'detail': [{'file': f, 'line': l, 'statement': n, 'message': m[:300]} for f, l, n, m in b.broken]}
+    ok, assumptions, raw = common.print_assumptions(name)
+    closed = ok and all(t.startswith('Closed under') for t in assumptions.values())
+    return {'status': 'ok' if closed else 'proof-broken', 'generated': [os.path.relpath(f, common.VERIF) for f in files],
+            'theorems': sorted(assumptions), 'detail': None if closed else raw[-500:]}
 
 if __name__ == '__main__':
     import sys
